@@ -218,6 +218,14 @@ class Judge:
         key = json.dumps({"kind": "ev", "o": o}, sort_keys=True)
         self.recs.setdefault(key, ({"kind": "ev", "o": o}, []))[1].append(meta)
 
+    def add_seq(self, o, acc, meta):
+        """a sequence of accesses on one long-lived handle: acc = [[key, result, detail]]"""
+        self.n += 1
+        o = dict(o, ms=(0 if o["ms"] <= o["budget"] else o["ms"]))
+        rec = {"kind": "seq", "o": o, "acc": [{"k": a[0], "r": a[1]} for a in acc]}
+        key = json.dumps(rec, sort_keys=True)
+        self.recs.setdefault(key, (rec, []))[1].append(meta)
+
     def add_tx(self, path, inp, events, o, meta):
         self.n += 1
         o = dict(o, ms=(0 if o["ms"] <= o["budget"] else o["ms"]))
@@ -243,6 +251,7 @@ class Judge:
                     r.setdefault("path", "memory")
                     r.setdefault("inp", {"bad": "none", "dup": False})
                     r.setdefault("ev", [])
+                    r.setdefault("acc", [])
                     f.write(json.dumps(r, separators=(",", ":")) + "\n")
             res = tlc.run("IngestTrace.tla", "IngestTrace.cfg", workers=1, timeout=1800, env={"TRACE_FILE": path})
             ctx.add_tlc(f"IngestTrace[{label}:{b0}]", res, require_ok=False)
@@ -373,6 +382,12 @@ def ingest_models(ctx):
         res = f0.result()
         rs = [f.result() for f in fs]
     ctx.add_tlc("Ingest (every step with a failing twin; FailedIngestInvisible, NoPartialPackUsed, SuccessIsConsistent)", res)
+    rh = tlc.run("IngestHandle.tla", "IngestHandle_mc.cfg", workers=1, timeout=300)
+    ctx.add_tlc("IngestHandle (cached reader accessed repeatedly after a failed read; RepeatContained, NothingLost)", rh)
+    rn = tlc.run("IngestHandle.tla", "IngestHandle_neg_tagfirst.cfg", workers=1, timeout=300)
+    ctx.add_tlc("IngestHandle_neg_tagfirst.cfg (negative control: cache tagged before the parse, expects RepeatContained)", rn, require_ok=False)
+    if "RepeatContained" not in rn.violated:
+        raise MachineryError("negative control IngestHandle_neg_tagfirst did not find RepeatContained\n" + rn.output[-1500:])
     for (cfg, expect), r in zip(negs, rs):
         ctx.add_tlc(f"{cfg} (negative control, expects {expect})", r, require_ok=False)
         if expect not in r.violated:
@@ -577,6 +592,10 @@ def attack_results(ctx, judge, cases, meta, results):
                 case = f"attack expect={errs[0] if errs else 'ok'}"
             judge.add_event(o, {"site": SITE[p], "case": case, "cls": "attack", "shape": skey,
                                 "replay": {"case": dict(cases[cid], paths=[p])}, "ev": ev, "drift": drift})
+            if p == "direct" and ev.get("acc"):
+                nexec += 1
+                judge.add_seq(o, ev["acc"], {"site": "dulwich/pack.py:Pack.get_raw", "case": "attack repeat on one store", "cls": "attack", "shape": skey,
+                                             "replay": {"case": dict(cases[cid], paths=[p])}, "ev": ev})
             ctx.nontrivial(("attack", skey, p))
     ctx.count(nexec)
     ctx.cov["negative_controls_replayed"] = neg_info
@@ -618,9 +637,15 @@ def damage_cases(ctx, base):
     return cases, meta, per_art
 
 
+SEQ_SITE = {"packed-refs": "dulwich/refs.py:DiskRefsContainer.get_packed_refs", "index": "dulwich/index.py:Index.read",
+            "idx": "dulwich/pack.py:Pack.get_raw", "commit-graph": "dulwich/object_store.py:DiskObjectStore.get_commit_graph",
+            "midx": "dulwich/object_store.py:DiskObjectStore.get_midx", "bitmap": "dulwich/pack.py:Pack.bitmap"}
+
+
 def damage_results(ctx, judge, cases, meta, per_art, results):
     nexec = 0
     read_stats = {}
+    seq_stats = {}
     byid = {c["id"]: c for c in cases}
     for cid in sorted(meta):
         r = results[cid]
@@ -643,6 +668,10 @@ def damage_results(ctx, judge, cases, meta, per_art, results):
                 o = judge.obs(ev, p, trailer_ok=tok)
                 judge.add_event(o, {"site": SITE[p], "case": f"damage {mcls}", "cls": "damage", "mut": mut,
                                     "replay": {"case": dict(byid[cid], paths=[p])}, "ev": ev})
+                if p == "direct" and ev.get("acc"):
+                    nexec += 1
+                    judge.add_seq(o, ev["acc"], {"site": "dulwich/pack.py:Pack.get_raw", "case": f"damage {mcls} repeat on one store", "cls": "damage", "mut": mut,
+                                                 "replay": {"case": dict(byid[cid], paths=[p])}, "ev": ev})
                 ctx.nontrivial(("damage", name, tuple(m), p))
         else:
             for rk, e in r["reads"].items():
@@ -665,6 +694,28 @@ def damage_results(ctx, judge, cases, meta, per_art, results):
                 st[e["outcome"] if e["outcome"] in ("ok", "error") else "other"] += 1
                 if isinstance(v, dict) and v.get("misnamed"):
                     st["misnamed_on_unverified_read"] += 1
+    for cid in sorted(meta):
+        r = results[cid]
+        sq = r.get("seq") if isinstance(r, dict) else None
+        if not sq:
+            continue
+        name, kind, m = meta[cid]
+        nexec += 1
+        mut = f"{name}:{m[0]}@{m[1]}" + (f".{m[2]}" if m[0] in ("bit", "set") else "")
+        o = judge.obs({"outcome": sq["outcome"], "exc": sq.get("exc"), "wall_ms": sq.get("wall_ms", 0)}, kind)
+        judge.add_seq(o, sq["acc"], {"site": SEQ_SITE[kind], "case": f"damage {kind}:{m[0]} repeat on one handle", "cls": "damage", "mut": mut,
+                                     "replay": {"case": byid[cid]}, "ev": dict(sq, acc=[a[:3] for a in sq["acc"]][:12])})
+        ctx.nontrivial(("seq", name, tuple(m)))
+        sk = seq_stats.setdefault(kind, {"sequences": 0, "with_failed_access": 0, "repeat_after_failure": {}})
+        sk["sequences"] += 1
+        failed = set()
+        for a in sq["acc"]:
+            if a[0] in failed or (a[0] == "write" and failed):
+                sk["repeat_after_failure"][a[1]] = sk["repeat_after_failure"].get(a[1], 0) + 1
+            if a[1] == "error":
+                failed.add(a[0])
+        sk["with_failed_access"] += 1 if failed else 0
+    ctx.cov["repeat_access_stats"] = seq_stats
     ctx.count(nexec)
     ctx.cov["damage_artefacts"] = {k: {"level": v[0], "mutations": v[1], "bytes": len(L.artefacts()[k]["data"])} for k, v in per_art.items()}
     ctx.cov["damage_read_stats"] = read_stats
@@ -949,6 +1000,9 @@ def run(ctx):
         "loose-object bombs: both encodings x every route of the size limit x payload under/over x every loose read path; judged by returned size and the peak of "
         "traced allocations (tracemalloc) against the cap (over: refused and peak <= 2*cap + 8 MiB; the default 512 MiB cap is exceeded only in the thorough tier, "
         "a payload just under the default is not inflated)",
+        "repeated access: every damaged packed-refs / index / pack index / commit-graph / multi-pack-index / bitmap and every installed attack or damaged pack is also "
+        "asked the same questions twice on ONE long-lived handle (DiskRefsContainer, Index, DiskObjectStore, Pack), packed-refs followed by add_packed_refs: after a failed "
+        "access the repeat must fail again or give the intact answer (RepeatObs); the first-access-only length/checksum test of Pack.data is tolerated because the repeat returns correct objects",
         "a failing unlink of what the transaction itself installed (rollback) or of a lock file is not injected; leftover tmp_pack_*/tmp*.pack/.pack-without-.idx files are reported, not alarmed on",
         "SHA-1, zlib and CRC-32 come from the Python standard library (projection); attack deltas are valid deltas built by the harness; pure-Python dulwich (extension modules blocked)",
     ]
@@ -987,6 +1041,14 @@ def replay(ctx, path):
             bad = 1 if (c["kind"] == "bomb" and (ev["outcome"] == "ok" or r.get("rss_growth_kb", 0) > 24 * 1024)) else 0
             judge.add_event(judge.obs(dict(ev, pre=ev.get("pre", []), post=ev.get("post", [])), p, trailer_ok=tok, bad_extra=bad),
                             {"site": site, "case": case, "replay": {}, "ev": ev})
+        if r.get("seq"):
+            kind = L.artefacts()[c["art"]]["kind"]
+            sq = r["seq"]
+            judge.add_seq(judge.obs({"outcome": sq["outcome"], "exc": sq.get("exc"), "wall_ms": sq.get("wall_ms", 0)}, kind), sq["acc"],
+                          {"site": site, "case": case, "replay": {}, "ev": sq})
+        for ev in r.get("events", []):
+            if ev.get("acc"):
+                judge.add_seq(judge.obs(ev, "direct"), ev["acc"], {"site": site, "case": case, "replay": {}, "ev": ev})
         for rk, e in (r.get("reads") or {}).items():
             kind = L.artefacts()[c["art"]]["kind"]
             v = e.get("value")
